@@ -1373,7 +1373,8 @@ class MindsDBParser(Parser):
        'id')
     def column_list(self, p):
         column_list = getattr(p, 'column_list', [])
-        column_list.append(p.id)
+        # the name without its back-quotes, like every other identifier (and like the other dialects)
+        column_list.append(Identifier.from_path_str(p.id).parts[0])
         return column_list
 
     # case
